@@ -230,6 +230,20 @@ def r13_4(ctx, fx):
                 break
         ctx.ob("R13.4", "on_inbound_substream/push#%d:guarded-by-in_flight<max" % i, ok, site=fn.site(p.node), cfg=fx.cfg,
                detail="when a maximum is configured the push must lie behind `in_flight < max` (%s)" % desc)
+        # the compared quantity counts the protocol-wide containers: the one this push grows (requests being read) and the one holding
+        # requests waiting for the user's response - not a per-peer subset of them
+        for cn in by:
+            qs = set()
+            at = fn.at(cn)
+            ops = [at["rv"]["a"], at["rv"]["b"]] if "rv" in at else list(fn.call_at(cn).args)
+            for o in ops:
+                if is_q(fn, o):
+                    qs |= guards.rootstrs(fn, o)
+            grown = re.search(r"\.(\w+)$", fn.recv(p).rstrip("*"))
+            need = {grown.group(1) if grown else "pending_inbound_requests", "pending_outbound_responses"}
+            have = {n_ for n_ in need if any(re.search(r"^param:_1.*\." + n_ + r"\b", x) for x in qs)}
+            ctx.ob("R13.4", "on_inbound_substream/push#%d:bound-counts-%s" % (i, "+".join(sorted(need))), have == need, site=fn.site(cn), cfg=fx.cfg,
+                   detail="the quantity compared with the maximum must be rooted in the protocol-wide containers %s; roots %s" % (sorted(need), sorted(qs)[:12]))
 
 
 def r13_5(ctx, fx):
